@@ -51,7 +51,7 @@ func main() {
 			"distinct = hash of the schedule's step kinds together with the order of observed sync/state events; non-trivial = at least one sync round overlapped with an upload, a release or an injected failure",
 		Workers:     12,
 		CaseTimeout: 180 * time.Second,
-		Floors: map[string]int64{"checkpoints": 1500, "acked_uploads_covered": 5000, "sync_rounds": 1500, "release_state_writes_without_clock": 300, "retries_observed": 150, "epoch_timer_pairs": 800, "shutdowns": 60,
+		Floors: map[string]int64{"checkpoints": 1500, "acked_uploads_covered": 5000, "sync_rounds": 1500, "release_state_writes_without_clock": 40, "retries_observed": 150, "epoch_timer_pairs": 800, "shutdowns": 60,
 			"gated_rounds": 300, "wakeup_invariant_checks": 1500},
 		Assumptions: []string{"liveness is decided in bounded, state-based form: all goroutines parked + no pending virtual timer + work still pending = stall", "retry timers are recognised by their duration (7s+1ns); harness clock advances are whole seconds"},
 		Race:        true,
@@ -253,7 +253,7 @@ func relevant(dump string) string {
 func (e *env) drain() bool {
 	for i := 0; i < 400; i++ {
 		if !run.Settle(30 * time.Second) {
-			e.w.Inconclusive("settle timed out in drain")
+			e.w.Inconclusive("settle timed out in drain: " + run.ActiveGoroutines())
 			return false
 		}
 		d, ok := e.s.M.Clock.NextFire()
